@@ -97,6 +97,65 @@ def _mk(t, lab, ids, rate, bin_, win, sym, ldt='int64', tdt='float64', symdef=Fa
     return c
 
 
+# ---- the caller's objects and their history (stage 6) ----------------------------------------------------
+# 'idt'  = the form in which cluster_ids is handed over: a Python list (default), a tuple, or an ndarray of the
+#          given dtype.
+# 'hist' = earlier calls made by the same caller IN THE SAME PROCESS ON THE SAME cluster_ids / labels OBJECTS
+#          before the observed call: a list of steps {'fn': 'ccg' | 'rate', 'ids': contents of the cluster_ids
+#          object at that call (same length; None = as in the observed call), 'lab': contents of the labels
+#          object at that call (same length; None = as in the observed call)}.  Between two calls the caller
+#          overwrites its own objects in place (obj[:] = ...: what ids.sort(), np.random.shuffle(ids),
+#          labels[labels == a] = b do).  The property speaks about the arguments of a call at the time of the
+#          call: the observed result must be the one of a first call with fresh objects (the Coq model never
+#          sees the history).
+_IDT = ('list', 'tuple', 'int64', 'int32', 'uint16')
+
+
+def _hist(case, idt='list', hist=()):
+    i = case['inp']
+    assert idt in _IDT
+    n, m = len(i['lab']), None if i['ids'] is None else len(i['ids'])
+    for h in hist:
+        assert h['fn'] in ('ccg', 'rate')
+        assert h.get('lab') is None or len(h['lab']) == n
+        assert h.get('ids') is None or (m is not None and len(h['ids']) == m)
+    if idt != 'list':
+        i['idt'] = idt
+    if hist:
+        i['hist'] = [{'fn': h['fn'], 'ids': None if h.get('ids') is None else list(h['ids']),
+                      'lab': None if h.get('lab') is None else list(h['lab'])} for h in hist]
+    return case
+
+
+def _random_hist(rng, case):
+    """an ids form and (one time in four) a history of 1-2 earlier calls for a generated ccg / rate case; every
+    earlier call is itself legal (distinct non-negative ids containing that call's labels)"""
+    i = case['inp']
+    idt = rng.choice(['list', 'list', 'int64', 'int64', 'int32', 'uint16', 'tuple'])
+    hist = []
+    if rng.random() < .25:
+        for _ in range(rng.choice([1, 1, 2])):
+            h = {'fn': rng.choice(['ccg', 'rate']), 'ids': None, 'lab': None}
+            r = rng.random()
+            if r < .55 and i['ids'] is not None and idt != 'tuple':
+                # the same ids in another order (reordered in place afterwards)
+                p = list(i['ids'])
+                rng.shuffle(p)
+                h['ids'] = p
+            elif r < .85:
+                # other ids altogether: an injective renaming of the values, labels renamed with them
+                vals = sorted(set(i['lab']) | set(i['ids'] or []))
+                new = dict(zip(vals, rng.sample(range(0, 16), len(vals)))) if len(vals) <= 16 else {}
+                if new:
+                    if i['ids'] is not None and idt != 'tuple':
+                        h['ids'] = [new[x] for x in i['ids']]
+                        h['lab'] = [new[x] for x in i['lab']]
+                    elif i['ids'] is None:
+                        h['lab'] = [new[x] for x in i['lab']]
+            hist.append(h)
+    return _hist(case, idt, hist)
+
+
 def _mkr(lab, ids, bin_, dur, ldt='int64'):
     return {'kind': 'rate', 'inp': {'lab': list(lab), 'ids': None if ids is None else list(ids),
                                     'bin': _fr(bin_), 'dur': None if dur is None else _fr(dur), 'ldt': ldt}}
@@ -167,6 +226,22 @@ def generate(tier, rng):
             cases.append(_mkc(3000, 0, 5, 1, 1, 1, sym))
         if BIG and tier != 'search':
             cases.append(_mkc(65537, 0, 0, 1, 1, 1, sym))
+    # one cluster_ids object used for two calls and reordered / refilled in place in between (seeded change C15-m12
+    # kept the relabelling table of the previous call for an identical lookup object), as ndarray, list and tuple
+    for sym in (False, True):
+        for idt in ('int64', 'list', 'int32'):
+            cases.append(_hist(_mk([0, 1, 1, 2, 4, 5, 7, 7, 8, 10], [3, 5, 3, 3, 9, 5, 3, 9, 3, 3], [9, 3, 5], 1, 1, 7, sym),
+                               idt, [{'fn': 'ccg', 'ids': [3, 5, 9]}]))
+        cases.append(_hist(_mk([0, 0, 1, 3], [4, 1, 4, 1], [1, 7, 4], 1, 1, 2, sym), 'int64',
+                           [{'fn': 'rate', 'ids': [4, 1, 7]}, {'fn': 'ccg', 'ids': [7, 4, 1]}]))
+        cases.append(_hist(_mk([0, 0, 1, 3], [4, 1, 4, 1], [1, 4], 1, 1, 2, sym), 'int64',
+                           [{'fn': 'ccg', 'ids': [0, 2], 'lab': [0, 2, 0, 2]}]))
+        cases.append(_hist(_mk([0, 2, 2, 5], [4, 1, 4, 1], [1, 4], 1, 2, 4, sym), 'tuple', [{'fn': 'ccg'}]))
+        cases.append(_hist(_mk([0, 1, 1, 3, 7], [5, 2, 5, 5, 2], None, 1, 2, 4, sym), 'list',
+                           [{'fn': 'ccg', 'lab': [2, 5, 2, 2, 5]}]))
+    for idt in ('int64', 'list'):
+        cases.append(_hist(_mkr([3, 5, 3, 3, 9, 5, 3, 9, 3, 3], [9, 3, 5], 1, 10), idt, [{'fn': 'rate', 'ids': [3, 5, 9]}]))
+        cases.append(_hist(_mkr([4, 1, 4, 4], [1, 9, 4], F(1, 4), 2), idt, [{'fn': 'ccg', 'ids': [4, 1, 9]}]))
     for ids in ([4, 1, 9], [9, 4, 1], [4, 9, 1], [1, 4], None):
         cases.append(_mkr([4, 1, 4, 4], ids, F(1, 4), 2))
     cases.append(_mkr([], [4, 1], 1, 1))
@@ -301,7 +376,7 @@ def _random_ccg(rng, nmax, small=False, big=False):
             rng.shuffle(ids)
         sym = rng.random() < .5
         ldt = rng.choice(['int64', 'int64', 'int32', 'uint32', 'list'])
-        return _mk(t, labels, ids, rate, bin_, win, sym, ldt, tdt, symdef=rng.random() < .25)
+        return _random_hist(rng, _mk(t, labels, ids, rate, bin_, win, sym, ldt, tdt, symdef=rng.random() < .25))
     raise RuntimeError('no admissible random parameters')
 
 
@@ -320,7 +395,7 @@ def _random_rate(rng, nmax):
     b = F(rng.randint(1, 40), 2 ** rng.randint(0, 10))
     d = rng.choice([None, F(0), F(2 ** rng.randint(0, 6)), F(1, 2 ** rng.randint(0, 6)),
                     F(2 ** rng.randint(0, 12))])
-    return _mkr(labels, ids, b, d, rng.choice(['int64', 'int32', 'list']))
+    return _random_hist(rng, _mkr(labels, ids, b, d, rng.choice(['int64', 'int32', 'list'])))
 
 
 # ---- implementation side -------------------------------------------------------------------------------
@@ -330,6 +405,50 @@ def _labels(lab, ldt):
     if ldt == 'list' and lab:
         return list(lab)
     return np.array(lab, dtype=np.int64 if ldt == 'list' else ldt)
+
+
+def _ids_obj(i):
+    """the caller's cluster_ids object in the form the case asks for"""
+    import numpy as np
+    ids, idt = i['ids'], i.get('idt', 'list')
+    if ids is None:
+        return None
+    if idt == 'list':
+        return list(ids)
+    if idt == 'tuple':
+        return tuple(ids)
+    return np.array(ids, dtype=idt)
+
+
+def _overwrite(obj, vals):
+    """the caller refills its own list / ndarray in place (a tuple, None and an empty object stay as they are)"""
+    if vals is None or obj is None or isinstance(obj, tuple) or len(obj) != len(vals):
+        return
+    obj[:] = vals
+
+
+def _replay_history(i, idsobj, lab, tarr=None, kw=None):
+    """the earlier calls of case['inp']['hist'] on the caller's cluster_ids / labels objects, each preceded by the
+    in-place refill that gives the objects that call's contents; afterwards the objects get the contents of the
+    observed call.  Whatever an earlier call returns or raises is not observed."""
+    import numpy as np
+    from phylib.stats.ccg import correlograms, firing_rate
+    for h in i.get('hist') or ():
+        _overwrite(idsobj, h.get('ids') if h.get('ids') is not None else i['ids'])
+        _overwrite(lab, h.get('lab') if h.get('lab') is not None else i['lab'])
+        try:
+            if h['fn'] == 'rate':
+                firing_rate(lab, cluster_ids=idsobj, bin_size=1., duration=1.)
+            elif tarr is not None:
+                correlograms(tarr, lab, cluster_ids=idsobj, **kw)
+            else:
+                correlograms(np.arange(len(lab), dtype=np.float64), lab, cluster_ids=idsobj, sample_rate=1.,
+                             bin_size=1., window_size=2., symmetrize=False)
+        except Exception:  # noqa
+            pass
+    if i.get('hist'):
+        _overwrite(idsobj, i['ids'])
+        _overwrite(lab, i['lab'])
 
 
 def _ftok(x):
@@ -391,17 +510,20 @@ def _run_case(case):
             tarr = np.array(times, dtype=np.float64)
         kw = {} if i.get('symdef') else {'symmetrize': i['sym']}
         lab = _labels(i['lab'], i['ldt'])
+        idsobj = _ids_obj(i)
+        _replay_history(i, idsobj, lab, tarr, dict(sample_rate=fr, bin_size=float(b), window_size=float(w),
+                                                   symmetrize=i['sym']))
         if len(times) % 2 == 1 and not isinstance(tarr, list):
             # the same array objects have already been through a call (the other symmetrize setting): a correlogram
             # is a function of the spike times it is given, so an earlier call on the caller's arrays must not change
             # what a later call on them returns (seeded change C15-m6 scaled a float64 time array in place)
             try:
-                correlograms(tarr, lab, cluster_ids=i['ids'], sample_rate=fr, bin_size=float(b), window_size=float(w),
+                correlograms(tarr, lab, cluster_ids=idsobj, sample_rate=fr, bin_size=float(b), window_size=float(w),
                              symmetrize=not i['sym'])
             except Exception:  # noqa
                 pass
         out = correlograms(tarr, lab,
-                           cluster_ids=i['ids'], sample_rate=fr, bin_size=float(b), window_size=float(w), **kw)
+                           cluster_ids=idsobj, sample_rate=fr, bin_size=float(b), window_size=float(w), **kw)
         out = np.asarray(out)
         if out.ndim != 3 or out.dtype.kind not in 'iu':
             raise TypeError('correlograms returned ndim=%d dtype=%s' % (out.ndim, out.dtype))
@@ -426,7 +548,10 @@ def _run_case(case):
         d = None if i['dur'] is None else F(*i['dur'])
         if F(float(b)) != b or (d is not None and F(float(d)) != d):
             return ('regime', 'bin/duration not floats')
-        out = firing_rate(_labels(i['lab'], i['ldt']), cluster_ids=i['ids'], bin_size=float(b),
+        lab = _labels(i['lab'], i['ldt'])
+        idsobj = _ids_obj(i)
+        _replay_history(i, idsobj, lab)
+        out = firing_rate(lab, cluster_ids=idsobj, bin_size=float(b),
                           duration=None if d is None else float(d))
         out = np.asarray(out)
         if out.ndim != 2:
@@ -501,6 +626,12 @@ def dist(case, obs):
                               'with-empty' if set(ids) - labs else
                               'sorted' if ids == sorted(ids) else 'permuted'))
     out.append('%s.labels_dtype=%s' % (k, i['ldt']))
+    out.append('%s.ids_form=%s' % (k, 'default' if ids is None else i.get('idt', 'list')))
+    hist = i.get('hist') or []
+    out.append('%s.history=%s' % (k, 'none' if not hist else '+'.join(
+        h['fn'] + ('' if h['ids'] is None and h['lab'] is None else
+                   ':reordered-ids' if h['lab'] is None and sorted(h['ids']) == sorted(ids or []) else ':other-contents')
+        for h in hist)))
     if k == 'ccg':
         out.append('ccg.times=%s' % i.get('tdt', 'float64'))
     if k == 'ccg':
@@ -574,6 +705,27 @@ def _shrink_raw(case):
                 yield {'kind': k, 'inp': j}
         return
     n = len(i['lab'])
+    hist = i.get('hist') or []
+    # a shorter / simpler history, a plainer ids form
+    for d in range(len(hist)):
+        j = dict(i)
+        j['hist'] = hist[:d] + hist[d + 1:]
+        if not j['hist']:
+            del j['hist']
+        yield {'kind': k, 'inp': j}
+    for d, h in enumerate(hist):
+        if h['fn'] != k:
+            j = dict(i)
+            j['hist'] = hist[:d] + [dict(h, fn=k)] + hist[d + 1:]
+            yield {'kind': k, 'inp': j}
+    if i.get('idt', 'list') not in ('list', 'int64'):
+        j = dict(i)
+        j['idt'] = 'int64'
+        yield {'kind': k, 'inp': j}
+    if i.get('idt', 'list') != 'list':
+        j = dict(i)
+        del j['idt']
+        yield {'kind': k, 'inp': j}
     # drop a spike (halves first, then single spikes)
     cuts = []
     if n > 4:
@@ -589,6 +741,8 @@ def _shrink_raw(case):
             j['t'] = [i['t'][a] for a in keep]
         if j['ids'] is not None and not set(j['lab']) <= set(j['ids']):
             continue
+        if hist:
+            j['hist'] = [dict(h, lab=None if h['lab'] is None else [h['lab'][a] for a in keep]) for h in hist]
         yield {'kind': k, 'inp': j}
     # drop an id without spikes
     if i['ids'] is not None:
@@ -596,6 +750,11 @@ def _shrink_raw(case):
             if x not in i['lab']:
                 j = dict(i)
                 j['ids'] = i['ids'][:d] + i['ids'][d + 1:]
+                if hist:
+                    # the earlier contents lose the same id (a reordering) or the same position (other contents)
+                    j['hist'] = [dict(h, ids=None if h['ids'] is None else
+                                      [y for y in h['ids'] if y != x] if sorted(h['ids']) == sorted(i['ids']) else
+                                      h['ids'][:d] + h['ids'][d + 1:]) for h in hist]
                 yield {'kind': k, 'inp': j}
     if i.get('ldt') != 'int64':
         j = dict(i)
@@ -654,6 +813,17 @@ def repro(case):
             "print(c.dtype, c.shape, c)   # the only non-zero entry (zero lag) must be n * (n - 1) // 2 =\n"
             "print(n * (n - 1) // 2)\n" % (i['n'], i['rate'][0], i['rate'][1], i['s'], i['c'], i['c'],
                                             float(F(*i['bin'])), float(F(*i['win'])), i['sym']))
+    if i.get('hist') or i.get('idt', 'list') != 'list':
+        # the caller's objects and their history: replay the case itself through the runner
+        return pre + (
+            "from vt.props import c15\n"
+            "case = %r\n"
+            "# inp['idt']: form of cluster_ids (tuple / ndarray dtype); inp['hist']: EARLIER calls on the SAME cluster_ids and\n"
+            "# labels objects (fn = correlograms / firing_rate), each with the contents 'ids' / 'lab' the objects had then\n"
+            "# (None = as now); the caller overwrites its objects in place (obj[:] = ...) between the calls.\n"
+            "print(c15.run_case(case))   # the observed (last) call: must equal a first call on fresh objects:\n"
+            "fresh = {'kind': case['kind'], 'inp': {k: v for k, v in case['inp'].items() if k != 'hist'}}\n"
+            "print(c15.run_case(fresh))\n" % ({'kind': k, 'inp': i},))
     if k == 'ccg':
         return pre + (
             "from phylib.stats.ccg import correlograms\n"
